@@ -2,4 +2,405 @@
 From Coq Require Import List Arith ZArith Bool Lia.
 From MirV Require Import Base.W64 C14.DataSection.
 Import ListNotations.
-Lemma placeholder14 : True. Proof. exact I. Qed.
+
+(* ------------------------------------------------------------ one step of the item loop *)
+
+Definition step_cur (all : list item) (i : nat) (cur : option (nat * nat)) (it : item)
+  : option place * option (nat * nat) :=
+  if is_data_like it then
+    match cur, is_named it with
+    | Some (h, off), false =>
+        (Some {| p_head := h; p_off := off |}, Some (h, off + size_of all it))
+    | _, _ => (Some {| p_head := i; p_off := 0 |}, Some (i, size_of all it))
+    end
+  else (None, None).
+
+Lemma layout_from_cons all it rest i cur :
+  layout_from all (it :: rest) i cur
+  = fst (step_cur all i cur it) :: layout_from all rest (S i) (snd (step_cur all i cur it)).
+Proof.
+  unfold step_cur. simpl. destruct (is_data_like it); [|reflexivity].
+  destruct cur as [[h off]|]; [destruct (is_named it)|]; reflexivity.
+Qed.
+
+(* the open section just before the k-th element of [items] is processed *)
+Fixpoint cur_before (all items : list item) (i : nat) (cur : option (nat * nat)) (k : nat)
+  {struct k} : option (nat * nat) :=
+  match k, items with
+  | O, _ => cur
+  | S k', x :: r => cur_before all r (S i) (snd (step_cur all i cur x)) k'
+  | S _, [] => cur
+  end.
+
+Lemma nth_layout_from all : forall items i cur k it,
+  nth_error items k = Some it ->
+  nth_error (layout_from all items i cur) k
+  = Some (fst (step_cur all (i + k) (cur_before all items i cur k) it)).
+Proof.
+  induction items as [|x r IH]; intros i cur k it H.
+  - destruct k; discriminate.
+  - rewrite layout_from_cons. destruct k as [|k]; simpl in *.
+    + inversion H; subst. rewrite Nat.add_0_r. reflexivity.
+    + rewrite (IH (S i) _ k it H). replace (i + S k) with (S i + k) by lia. reflexivity.
+Qed.
+
+Lemma cur_before_S all : forall items i cur k x,
+  nth_error items k = Some x ->
+  cur_before all items i cur (S k) = snd (step_cur all (i + k) (cur_before all items i cur k) x).
+Proof.
+  induction items as [|y r IH]; intros i cur k x H.
+  - destruct k; discriminate.
+  - destruct k as [|k]; simpl in *.
+    + inversion H; subst. rewrite Nat.add_0_r. reflexivity.
+    + rewrite (IH (S i) _ k x H). replace (i + S k) with (S i + k) by lia. reflexivity.
+Qed.
+
+Lemma layout_length all : forall items i cur, length (layout_from all items i cur) = length items.
+Proof.
+  induction items as [|x r IH]; intros; [reflexivity|].
+  rewrite layout_from_cons. simpl. rewrite IH. reflexivity.
+Qed.
+
+Definition cb (all : list item) (k : nat) : option (nat * nat) := cur_before all all 0 None k.
+
+Lemma place_of_step all i it :
+  nth_error all i = Some it -> place_of all i = fst (step_cur all i (cb all i) it).
+Proof.
+  intro H. unfold place_of, layout. rewrite (nth_layout_from all all 0 None i it H). reflexivity.
+Qed.
+
+Lemma place_of_out all i : nth_error all i = None -> place_of all i = None.
+Proof.
+  intro H. unfold place_of, layout.
+  assert (L : nth_error (layout_from all all 0 None) i = None).
+  { apply nth_error_None. rewrite layout_length. apply nth_error_None. exact H. }
+  rewrite L. reflexivity.
+Qed.
+
+Lemma cb_S all i it : nth_error all i = Some it -> cb all (S i) = snd (step_cur all i (cb all i) it).
+Proof. intro H. unfold cb. rewrite (cur_before_S all all 0 None i it H). reflexivity. Qed.
+
+(* ------------------------------------------------------------ the three layout rules *)
+
+(* every data-like item is placed, nothing else is *)
+Lemma section_partition_proof all i :
+  place_of all i = None <-> ~ (exists it, nth_error all i = Some it /\ is_data_like it = true).
+Proof.
+  destruct (nth_error all i) as [it|] eqn:H.
+  - rewrite (place_of_step all i it H). unfold step_cur.
+    destruct (is_data_like it) eqn:Hd.
+    + split.
+      * destruct (cb all i) as [[h off]|]; [destruct (is_named it)|]; discriminate.
+      * intro N. exfalso. apply N. exists it. split; [reflexivity | exact Hd].
+    + split; [|reflexivity]. intros _ (x & Hx & Hdx). inversion Hx; subst. rewrite Hd in Hdx. discriminate.
+  - rewrite (place_of_out all i H). split; [|reflexivity].
+    intros _ (x & Hx & _). discriminate.
+Qed.
+
+(* a named data-like item, the first item, and a data-like item after a non-data item start a
+   section at offset 0 *)
+Lemma section_head_starts_proof all i it :
+  nth_error all i = Some it -> is_data_like it = true ->
+  (is_named it = true \/ i = 0 \/
+   exists prev, nth_error all (i - 1) = Some prev /\ is_data_like prev = false) ->
+  place_of all i = Some {| p_head := i; p_off := 0 |}.
+Proof.
+  intros H Hd Hc. rewrite (place_of_step all i it H). unfold step_cur. rewrite Hd.
+  destruct Hc as [Hn | [Hz | (prev & Hp & Hpd)]].
+  - rewrite Hn. destruct (cb all i) as [[h off]|]; reflexivity.
+  - subst i. unfold cb. simpl. reflexivity.
+  - destruct i as [|j]; [unfold cb; simpl; reflexivity|].
+    replace (S j - 1) with j in Hp by lia.
+    rewrite (cb_S all j prev Hp). unfold step_cur at 1. rewrite Hpd. simpl. reflexivity.
+Qed.
+
+(* an anonymous data-like item directly after a placed item continues that item's section at the
+   next byte *)
+Lemma section_contiguous_proof all i p it it' :
+  nth_error all i = Some it -> place_of all i = Some p ->
+  nth_error all (S i) = Some it' -> is_data_like it' = true -> is_named it' = false ->
+  place_of all (S i) = Some {| p_head := p_head p; p_off := p_off p + size_of all it |}.
+Proof.
+  intros H Hp H' Hd' Hn'.
+  rewrite (place_of_step all (S i) it' H'). rewrite (cb_S all i it H).
+  rewrite (place_of_step all i it H) in Hp.
+  unfold step_cur in *. destruct (is_data_like it) eqn:Hd; [|discriminate].
+  rewrite Hd', Hn'.
+  destruct (cb all i) as [[h off]|]; [destruct (is_named it)|]; simpl in *;
+    inversion Hp; subst; simpl; reflexivity.
+Qed.
+
+(* ------------------------------------------------------------ list helpers *)
+
+Lemma skipn_nth_cons {A} (l : list A) : forall n x, nth_error l n = Some x -> skipn n l = x :: skipn (S n) l.
+Proof.
+  induction l as [|y l IH]; intros n x H; destruct n; simpl in *; try discriminate.
+  - inversion H; reflexivity.
+  - apply IH. exact H.
+Qed.
+
+Lemma nth_error_skipn {A} (l : list A) : forall n d, nth_error (skipn n l) d = nth_error l (n + d).
+Proof.
+  induction l as [|y l IH]; intros n d; destruct n; simpl; try reflexivity.
+  - destruct d; reflexivity.
+  - apply IH.
+Qed.
+
+Lemma firstn_S_nth {A} (l : list A) : forall d x, nth_error l d = Some x -> firstn (S d) l = firstn d l ++ [x].
+Proof.
+  induction l as [|y l IH]; intros d x H; destruct d; simpl in *; try discriminate.
+  - inversion H; reflexivity.
+  - f_equal. apply IH. exact H.
+Qed.
+
+Definition anon (it : item) : bool := is_data_like it && negb (is_named it).
+
+Lemma anon_run_nth l : forall d x,
+  nth_error (anon_run l) d = Some x <->
+  nth_error l d = Some x /\ forall d', d' <= d -> exists y, nth_error l d' = Some y /\ anon y = true.
+Proof.
+  induction l as [|y l IH]; intros d x; simpl.
+  - split; [destruct d; discriminate | intros [H _]; destruct d; discriminate].
+  - fold (anon y). destruct (anon y) eqn:Hy.
+    + destruct d as [|d]; simpl.
+      * split.
+        -- intro H. split; [exact H|]. intros d' Hd'. assert (d' = 0) by lia. subst. exists y. split; [reflexivity | exact Hy].
+        -- intros [H _]. exact H.
+      * rewrite IH. split.
+        -- intros [H1 H2]. split; [exact H1|]. intros d' Hd'. destruct d' as [|d'].
+           ++ exists y. split; [reflexivity | exact Hy].
+           ++ simpl. apply H2. lia.
+        -- intros [H1 H2]. split; [exact H1|]. intros d' Hd'. specialize (H2 (S d') ltac:(lia)). exact H2.
+    + split; [destruct d; discriminate|]. intros [_ H2]. destruct (H2 0 ltac:(lia)) as (z & Hz & Hz').
+      simpl in Hz. inversion Hz; subst. rewrite Hy in Hz'. discriminate.
+Qed.
+
+Lemma sum_sizes_app all l1 l2 : sum_sizes all (l1 ++ l2) = sum_sizes all l1 + sum_sizes all l2.
+Proof. induction l1 as [|x l1 IH]; simpl; [reflexivity | rewrite IH; lia]. Qed.
+
+Lemma sum_sizes_firstn_S all l d x :
+  nth_error l d = Some x -> sum_sizes all (firstn (S d) l) = sum_sizes all (firstn d l) + size_of all x.
+Proof. intro H. rewrite (firstn_S_nth l d x H), sum_sizes_app. simpl. lia. Qed.
+
+Lemma sum_sizes_firstn_le all l : forall d x,
+  nth_error l d = Some x -> sum_sizes all (firstn d l) + size_of all x <= sum_sizes all l.
+Proof.
+  induction l as [|y l IH]; intros d x H; destruct d; simpl in *; try discriminate.
+  - inversion H; subst. lia.
+  - specialize (IH d x H). lia.
+Qed.
+
+(* ------------------------------------------------------------ size pass vs placement pass *)
+
+Lemma members_head all h ith :
+  nth_error all h = Some ith -> is_data_like ith = true ->
+  members all h = ith :: anon_run (skipn (S h) all).
+Proof. intros H Hd. unfold members. rewrite (skipn_nth_cons all h ith H), Hd. reflexivity. Qed.
+
+(* walking forward from a head: the d-th member is item h+d and sits at the sum of the sizes of
+   the members before it *)
+Lemma run_forward all h ith :
+  nth_error all h = Some ith -> is_data_like ith = true ->
+  place_of all h = Some {| p_head := h; p_off := 0 |} ->
+  forall d itd, nth_error (members all h) d = Some itd ->
+    nth_error all (h + d) = Some itd /\
+    place_of all (h + d) = Some {| p_head := h; p_off := sum_sizes all (firstn d (members all h)) |}.
+Proof.
+  intros Hh Hdl Hp. rewrite (members_head all h ith Hh Hdl).
+  induction d as [|d IH]; intros itd Hd.
+  - cbn [nth_error] in Hd. inversion Hd; subst. rewrite Nat.add_0_r. split; [exact Hh | exact Hp].
+  - cbn [nth_error] in Hd. apply anon_run_nth in Hd. destruct Hd as [Hn Hall].
+    rewrite nth_error_skipn in Hn. replace (S h + d) with (h + S d) in Hn by lia.
+    split; [exact Hn|].
+    (* the previous member *)
+    assert (Hprev : exists y, nth_error (ith :: anon_run (skipn (S h) all)) d = Some y).
+    { destruct d as [|d']; [exists ith; reflexivity|]. cbn [nth_error].
+      destruct (Hall d' ltac:(lia)) as (y & Hy & Hay). exists y. apply anon_run_nth. split; [exact Hy|].
+      intros d'' Hd''. apply Hall. lia. }
+    destruct Hprev as (y & Hy). destruct (IH y Hy) as [Hy1 Hy2].
+    destruct (Hall d (le_n d)) as (z & Hz & Haz).
+    rewrite nth_error_skipn in Hz. replace (S h + d) with (h + S d) in Hz by lia.
+    rewrite Hn in Hz. inversion Hz; subst z.
+    unfold anon in Haz. apply andb_true_iff in Haz. destruct Haz as [Hzd Hzn]. apply negb_true_iff in Hzn.
+    replace (h + S d) with (S (h + d)) in * by lia.
+    rewrite (section_contiguous_proof all (h + d) _ y itd Hy1 Hy2 Hn Hzd Hzn). cbn [p_head p_off].
+    rewrite (sum_sizes_firstn_S all _ d y Hy). reflexivity.
+Qed.
+
+(* walking backward: every placed item belongs to the run of its head, and the head is a head *)
+Lemma placed_in_run all : forall i p it,
+  nth_error all i = Some it -> place_of all i = Some p ->
+  p_head p <= i /\
+  (exists ith, nth_error all (p_head p) = Some ith /\ is_data_like ith = true) /\
+  place_of all (p_head p) = Some {| p_head := p_head p; p_off := 0 |} /\
+  nth_error (members all (p_head p)) (i - p_head p) = Some it.
+Proof.
+  induction i as [|j IH]; intros p it Hi Hp.
+  - pose proof Hp as Hp0. rewrite (place_of_step all 0 it Hi) in Hp. unfold step_cur, cb in Hp. simpl in Hp.
+    destruct (is_data_like it) eqn:Hd; [|discriminate]. inversion Hp; subst p. simpl.
+    split; [lia|]. split; [exists it; split; assumption|]. split; [exact Hp0|].
+    rewrite (members_head all 0 it Hi Hd). reflexivity.
+  - pose proof Hp as Hp0. rewrite (place_of_step all (S j) it Hi) in Hp. unfold step_cur in Hp.
+    destruct (is_data_like it) eqn:Hd; [|discriminate].
+    assert (Hown : p = {| p_head := S j; p_off := 0 |} ->
+                   S j <= S j /\ (exists ith, nth_error all (S j) = Some ith /\ is_data_like ith = true) /\
+                   place_of all (S j) = Some {| p_head := S j; p_off := 0 |} /\
+                   nth_error (members all (S j)) (S j - S j) = Some it).
+    { intro E. subst p. split; [lia|]. split; [exists it; split; assumption|]. split; [exact Hp0|].
+      rewrite (members_head all (S j) it Hi Hd), Nat.sub_diag. reflexivity. }
+    destruct (cb all (S j)) as [[h off]|] eqn:Hcb.
+    2:{ inversion Hp; subst p. cbn [p_head p_off]. apply Hown. reflexivity. }
+    destruct (is_named it) eqn:Hn.
+    { inversion Hp; subst p. cbn [p_head p_off]. apply Hown. reflexivity. }
+    inversion Hp; subst p. cbn [p_head p_off]. clear Hown.
+    (* the previous item opened or continued section h *)
+    destruct (nth_error all j) as [itj|] eqn:Hj.
+    2:{ exfalso. apply nth_error_None in Hj. assert (nth_error all (S j) = None) by (apply nth_error_None; lia).
+        rewrite Hi in H. discriminate. }
+    rewrite (cb_S all j itj Hj) in Hcb.
+    assert (Hpj : exists pj, place_of all j = Some pj /\ p_head pj = h).
+    { rewrite (place_of_step all j itj Hj). unfold step_cur in *.
+      destruct (is_data_like itj); [|discriminate].
+      destruct (cb all j) as [[h' off']|]; [destruct (is_named itj)|]; simpl in *; inversion Hcb; subst;
+        eexists; split; reflexivity. }
+    destruct Hpj as (pj & Hpj & Hhj). destruct (IH pj itj eq_refl Hpj) as (A1 & A2 & A3 & A4). rewrite Hhj in *.
+    split; [lia|]. split; [exact A2|]. split; [exact A3|].
+    destruct A2 as (ith & Hith & Hithd). rewrite (members_head all h ith Hith Hithd) in *.
+    replace (S j - h) with (S (j - h)) by lia. cbn [nth_error]. apply anon_run_nth.
+    rewrite nth_error_skipn. replace (S h + (j - h)) with (S j) by lia. split; [exact Hi|].
+    intros d' Hd'. destruct (Nat.eq_dec d' (j - h)) as [E|NE].
+    + subst d'. exists it. rewrite nth_error_skipn. replace (S h + (j - h)) with (S j) by lia.
+      split; [exact Hi|]. unfold anon. rewrite Hd, Hn. reflexivity.
+    + (* an earlier member: from membership of itj *)
+      destruct (j - h) as [|e] eqn:Hjh; [lia|].
+      cbn [nth_error] in A4. apply anon_run_nth in A4. destruct A4 as [_ A4]. apply A4. lia.
+Qed.
+
+Lemma offset_is_sum_proof all i p it :
+  nth_error all i = Some it -> place_of all i = Some p ->
+  p_off p = sum_sizes all (firstn (i - p_head p) (members all (p_head p))).
+Proof.
+  intros Hi Hp. destruct (placed_in_run all i p it Hi Hp) as (A1 & (ith & A2 & A2') & A3 & A4).
+  destruct (run_forward all (p_head p) ith A2 A2' A3 (i - p_head p) it A4) as [_ B].
+  replace (p_head p + (i - p_head p)) with i in B by lia. rewrite Hp in B. inversion B as [E].
+  rewrite E at 1. reflexivity.
+Qed.
+
+Lemma round8_bounds n : n <= round8 n /\ round8 n < n + 8 /\ round8 n mod 8 = 0.
+Proof.
+  unfold round8. pose proof (Nat.mod_upper_bound n 8 ltac:(lia)) as Hb.
+  destruct (Nat.eqb (n mod 8) 0) eqn:E.
+  - apply Nat.eqb_eq in E. lia.
+  - apply Nat.eqb_neq in E. split; [lia|]. split; [lia|].
+    pose proof (Nat.div_mod n 8 ltac:(lia)) as Hdm.
+    replace (n + (8 - n mod 8)) with ((n / 8 + 1) * 8) by lia. apply Nat.mod_mul. lia.
+Qed.
+
+(* what the size pass allocates covers everything the placement pass writes, wastes < 8 bytes *)
+Lemma section_size_covers_proof all i p it :
+  nth_error all i = Some it -> place_of all i = Some p ->
+  p_off p + size_of all it <= sum_sizes all (members all (p_head p)) /\
+  sum_sizes all (members all (p_head p)) <= sec_alloc all (p_head p) /\
+  sec_alloc all (p_head p) < sum_sizes all (members all (p_head p)) + 8 /\
+  sec_alloc all (p_head p) mod 8 = 0.
+Proof.
+  intros Hi Hp. destruct (placed_in_run all i p it Hi Hp) as (A1 & A2 & A3 & A4).
+  rewrite (offset_is_sum_proof all i p it Hi Hp).
+  split; [apply sum_sizes_firstn_le; exact A4|].
+  unfold sec_alloc. apply round8_bounds.
+Qed.
+
+(* ------------------------------------------------------------ contents *)
+
+Lemma le_bytes_length n : forall v, length (le_bytes n v) = n.
+Proof. induction n as [|n IH]; intro v; simpl; [reflexivity | rewrite IH; reflexivity]. Qed.
+
+Lemma flat_map_le_length n els : length (flat_map (le_bytes n) els) = length els * n.
+Proof.
+  induction els as [|e els IH]; simpl; [reflexivity|].
+  rewrite app_length, le_bytes_length, IH. reflexivity.
+Qed.
+
+Lemma content_length base all it : length (content base all it) = size_of all it.
+Proof.
+  destruct it as [nm t els|nm len|nm tg d|nm l1 l2 d|nm fn|rt body|k]; simpl; try reflexivity.
+  - unfold known. rewrite map_length. apply flat_map_le_length.
+  - apply repeat_length.
+  - destruct (nth_error all fn) as [[| | | | |rt body|]|]; try reflexivity.
+    destruct rt; unfold known; simpl; reflexivity.
+Qed.
+
+Lemma slice_flat_map {A B} (f : A -> list B) (sz : A -> nat) (l : list A) :
+  (forall y, length (f y) = sz y) ->
+  forall d x, nth_error l d = Some x ->
+    firstn (sz x) (skipn (fold_right (fun y acc => sz y + acc) 0 (firstn d l)) (flat_map f l)) = f x.
+Proof.
+  intro Hlen. induction l as [|y l IH]; intros d x H; destruct d; simpl in *; try discriminate.
+  - inversion H; subst. rewrite <- (Hlen x). rewrite firstn_app, Nat.sub_diag, firstn_all. simpl.
+    apply app_nil_r.
+  - rewrite <- (Hlen y). rewrite skipn_app.
+    replace (length (f y) + _ - length (f y)) with
+      (fold_right (fun y0 acc => sz y0 + acc) 0 (firstn d l)) by lia.
+    rewrite (skipn_all2 (f y)) by lia. simpl. apply IH. exact H.
+Qed.
+
+(* the bytes found at an item's place in its section's image are the item's contents *)
+Lemma section_contents_proof base all i p it :
+  nth_error all i = Some it -> place_of all i = Some p ->
+  slice (image base all (p_head p)) (p_off p) (size_of all it) = content base all it.
+Proof.
+  intros Hi Hp. destruct (placed_in_run all i p it Hi Hp) as (A1 & A2 & A3 & A4).
+  rewrite (offset_is_sum_proof all i p it Hi Hp). unfold slice, image, sum_sizes.
+  apply (slice_flat_map (content base all) (size_of all) (members all (p_head p))
+                        (content_length base all) (i - p_head p) it A4).
+Qed.
+
+Lemma decode_le_bytes n : forall v, decode_le (le_bytes n v) = (v mod 256 ^ Z.of_nat n)%Z.
+Proof.
+  induction n as [|n IH]; intro v.
+  - simpl. rewrite Z.mod_1_r. reflexivity.
+  - cbn [le_bytes decode_le]. rewrite IH. rewrite Nat2Z.inj_succ, Z.pow_succ_r by lia.
+    rewrite Z.rem_mul_r; [reflexivity | lia | apply Z.pow_pos_nonneg; lia].
+Qed.
+
+Lemma pow256_8 : (256 ^ Z.of_nat 8 = 2 ^ 64)%Z.
+Proof. reflexivity. Qed.
+
+(* a ref item holds the referenced item's address plus the displacement, as a 64-bit word *)
+Lemma ref_value_proof base all i p nm target disp :
+  nth_error all i = Some (IRef nm target disp) -> place_of all i = Some p ->
+  exists bytes,
+    slice (image base all (p_head p)) (p_off p) 8 = map Some bytes /\
+    decode_le bytes = u64 (addr_of base all target + disp).
+Proof.
+  intros Hi Hp. exists (le_bytes 8 (u64 (addr_of base all target + disp))). split.
+  - apply (section_contents_proof base all i p _ Hi Hp).
+  - rewrite decode_le_bytes, pow256_8. unfold u64, uwrap. apply Z.mod_mod. discriminate.
+Qed.
+
+(* an expr item holds the value of its expression function truncated to the result type's size
+   (all of it for integer/pointer/float/double; the 10 significant bytes for long double) *)
+Lemma expr_value_proof base all i p nm fn rt body :
+  nth_error all i = Some (IExpr nm fn) -> nth_error all fn = Some (IFunc rt body) ->
+  place_of all i = Some p ->
+  let n := match rt with TLD => 10 | _ => tsize rt end in
+  exists bytes,
+    firstn n (slice (image base all (p_head p)) (p_off p) (tsize rt)) = map Some bytes /\
+    decode_le bytes = (eval base all body mod 256 ^ Z.of_nat n)%Z.
+Proof.
+  intros Hi Hf Hp n. exists (le_bytes n (eval base all body)). split.
+  - pose proof (section_contents_proof base all i p _ Hi Hp) as H. simpl in H. rewrite Hf in H.
+    rewrite H. subst n. destruct rt; simpl; reflexivity.
+  - apply decode_le_bytes.
+Qed.
+
+Lemma data_contents_proof base all i p nm t els :
+  nth_error all i = Some (IData nm t els) -> place_of all i = Some p ->
+  slice (image base all (p_head p)) (p_off p) (length els * tsize t)
+  = map Some (flat_map (le_bytes (tsize t)) els).
+Proof. intros Hi Hp. apply (section_contents_proof base all i p _ Hi Hp). Qed.
+
+Lemma bss_contents_proof base all i p nm len :
+  nth_error all i = Some (IBss nm len) -> place_of all i = Some p ->
+  slice (image base all (p_head p)) (p_off p) len = repeat (Some 0%Z) len.
+Proof. intros Hi Hp. apply (section_contents_proof base all i p _ Hi Hp). Qed.
